@@ -6,7 +6,7 @@ use super::*;
 use soroban_sdk::model::{self, any};
 use soroban_sdk::{Address, Env, IntoVal, Symbol, Val, Vec};
 
-fn ops() -> Address {
+pub fn ops() -> Address {
     Address(5)
 }
 fn k(a: &Address) -> Val {
@@ -14,10 +14,10 @@ fn k(a: &Address) -> Val {
 }
 // membership is OBSERVED through the public query; only the pre-state is SEEDED through the storage key, and
 // `setup()` checks that what it seeded is what the contract reads (otherwise: inconclusive, not a violation)
-fn member(a: &Address) -> bool {
+pub fn member(a: &Address) -> bool {
     model::with_contract(&ops(), || AxelarOperators::is_operator(Env, a.clone()))
 }
-fn setup() -> (Env, Address, Address, bool, Address, bool) {
+pub fn setup() -> (Env, Address, Address, bool, Address, bool) {
     let env = Env::default();
     any::auths();
     let owner = any::address(4);
@@ -65,15 +65,15 @@ fn c17_membership_step() {
 }
 
 // ---- probe target
-static mut P_CALLS: u32 = 0;
-static mut P_ADDR: u32 = 0;
-static mut P_FN_OK: bool = false;
-static mut P_ARGS_OK: bool = false;
-static mut P_FAIL: bool = false;
-static mut P_RET: Val = Val::VOID;
-static mut P_EXPECT_FN: Option<Symbol> = None;
-static mut P_EXPECT_ARGS: Option<Vec<Val>> = None;
-fn probe(a: &Address, f: &Symbol, args: Vec<Val>) -> Val {
+pub static mut P_CALLS: u32 = 0;
+pub static mut P_ADDR: u32 = 0;
+pub static mut P_FN_OK: bool = false;
+pub static mut P_ARGS_OK: bool = false;
+pub static mut P_FAIL: bool = false;
+pub static mut P_RET: Val = Val::VOID;
+pub static mut P_EXPECT_FN: Option<Symbol> = None;
+pub static mut P_EXPECT_ARGS: Option<Vec<Val>> = None;
+pub fn probe(a: &Address, f: &Symbol, args: Vec<Val>) -> Val {
     unsafe {
         P_CALLS += 1;
         P_ADDR = a.0;
